@@ -308,8 +308,18 @@ def mutate_script(rng, script):
     if not ops:
         return bytes(rng.randrange(256) for _ in range(rng.randrange(1, 4)))
     raws = [r for _, _, r in ops]
-    m = rng.randrange(8)
+    m = rng.randrange(10)
     i = rng.randrange(len(ops))
+    if m >= 8:                                   # flip one bit of some push's data (first / last byte favoured)
+        pushes = [k for k, (o, d, _) in enumerate(ops) if o <= 0x4e and len(d) > 0]
+        if pushes:
+            i = rng.choice(pushes)
+            o, d, raw = ops[i]
+            pos = rng.choice([0, len(d) - 1, len(d) - 1, rng.randrange(len(d))])
+            d2 = bytearray(d)
+            d2[pos] ^= 1 << rng.randrange(8)
+            raws[i] = raw[:len(raw) - len(d)] + bytes(d2)
+        return b"".join(raws) + tail
     if m == 0:                                   # operand substitution
         pushes = [k for k, (o, _, _) in enumerate(ops) if o <= 0x4e or 0x4f <= o <= 0x60]
         if pushes:
@@ -792,6 +802,26 @@ class SigGen:
             tx["ins"][n_in]["script"] = ssig
             tx["ins"][n_in]["witness"] = wit
             yield spend(tx, spk, amount, flags, "sig.multisig.%s.%s" % (mode, wrapper), n_in)
+
+
+def boundary_s_cases(rng, keys):
+    """S on and around n/2 and p/2 under LOW_S, in templates where a failing signature still lets the script succeed"""
+    for ki in range(2):
+        pub = keys.sec(ki, True)
+        for tail in (b"\xac\x91", b"\xac", b"\xac\x91\x91\x91"):
+            script = push(pub) + tail
+            for sv in (C.n // 2 - 1, C.n // 2, C.n // 2 + 1, C.n // 2 + 2, (C.n + C.p) // 4, C.p // 2, C.p // 2 + 1, C.n - 1, 1):
+                for flags in (RS.LOW_S, RS.LOW_S | RS.P2SH | RS.WITNESS, RS.DERSIG, 0, RS.LOW_S | RS.STRICTENC, ALL_FLAGS & ~RS.NULLFAIL):
+                    for wrapper in ("bare", "p2wsh"):
+                        tx = mk_tx(rng, b"", [], 1000, 1, 0, 0xffffffff, 0, 1, 0)
+                        r, _ = keys.sign(ki, sha256(b"boundary"))
+                        sig = der_sig(r, sv) + b"\x01"
+                        if wrapper == "bare":
+                            tx["ins"][0]["script"] = push(sig)
+                            yield spend(tx, script, 1000, flags, "sig.boundary_s.bare")
+                        else:
+                            tx["ins"][0]["witness"] = [sig, script]
+                            yield spend(tx, b"\x00\x20" + sha256(script), 1000, fix_flags(flags | RS.WITNESS), "sig.boundary_s.p2wsh")
 
 
 def locktime_cases(rng, n):
